@@ -119,6 +119,14 @@ namespace GeographicLib {
       lat = k * real(60) - 90;        // k in [0, 3]: 90 is attained
       lon = j * real(90) - 180;
     }
+    // X12: a string of length 3 is accepted although nothing looks at its third character
+    static void DecodeLoose(const std::string& code, real& lat, real& lon) {
+      if (code.length() < 2 || code.length() > 3) throw GeographicErr("bad length");
+      int k = Utility::lookup(alpha_, code[0]), j = Utility::lookup(alpha_, code[1]);
+      if (k < 0 || j < 0) throw GeographicErr("bad letter");
+      lat = k * real(45) - 90;
+      lon = j * real(90) - 180;
+    }
     static const char* const alpha_;
   private:
     mutable real _memo;
